@@ -306,7 +306,27 @@ def gen_stream(rng, tree):
     parts = valid_session(rng, tree, rng.range(1, 8))
     stream = MAGIC + b"".join(p for p, _ in parts)
     desc = [d for _, d in parts]
-    kind = rng.below(18)
+    kind = rng.below(20)
+    if kind >= 18:
+        # a CUT-OFF request (its CBOR item ends inside the frame; the length prefix is right) that follows a LONGER well-formed
+        # frame of the same shape: whatever buffer the server keeps between frames still holds the tail that would complete it
+        # (same request kind, same path length, a hash). It is ill-formed: it must end the session and touch nothing.
+        e = bytes.fromhex(blake3_hex([b"x"])[0])
+        if tree:
+            victim = sorted(tree)[rng.below(len(tree))]
+            hv = bytes.fromhex(blake3_hex([tree[victim]])[0])
+            decoy = "".join("q" if ch != "/" else "/" for ch in victim)
+            first, second = req_delete(decoy, hv), req_delete(victim, hv)
+        else:
+            first, second = req_put("qqqqqq", None, 0, e), req_put("landed", None, 0, e)
+        lo = len(second) - 30 if len(second) > 34 else 2
+        cutat = rng.range(max(2, lo), len(second) - 1)
+        k = rng.below(len(parts) + 1)
+        lead = b"".join(p for p, _ in parts[:k])
+        if rng.coin(1, 3):
+            first = first + b"\x00" * rng.below(4)          # the long frame may itself be padded
+        return (MAGIC + lead + frame(first) + frame(second[:cutat]) + b"".join(p for p, _ in parts[k:]), "cut-request-after-longer-frame",
+                desc[:k] + ["well-formed no-op of the same shape", f"the same request for another path, cut at byte {cutat} of {len(second)}"] + desc[k:])
     if kind >= 16:
         # a well-framed request whose body is LONGER than its CBOR item (the length prefix covers the padding): the
         # whole frame must be consumed; the padding — zeros, or the bytes of a complete Put frame — is never a request
@@ -427,6 +447,10 @@ COMP11 = ["..", ".", "", "a", "b", "a..b", "..a", "c" * 300, "x y", "...", ".cop
 def gen_path(rng):
     n = rng.range(1, 4)
     comps = [rng.pick(COMP11) for _ in range(n)]
+    if rng.coin(1, 4):
+        # a long component of multi-byte characters behind 0–3 ASCII bytes: whatever clips, logs or echoes the path at a fixed
+        # byte offset (64, 96, 128, 255, …) then falls inside a character for most lengths
+        comps[rng.below(n)] = "x" * rng.below(4) + rng.pick(["é", "中", "𝄞"]) * rng.range(8, 140)
     sep = rng.pick(["/", "/", "//"])
     p = sep.join(comps)
     if rng.coin(1, 5):
